@@ -64,7 +64,7 @@ class ScopeDoc:
 
 
 class Gen:
-    def __init__(self, seed: int, base: int = 0, *, with_frames=True, inherits=True, rec_sets=True, nested=True, applied=True, chains=True, with_shadowing_let=True, nested_rec=True, dup_layers=True, same_layer_src=True, named_with=True):
+    def __init__(self, seed: int, base: int = 0, *, with_frames=True, inherits=True, rec_sets=True, nested=True, applied=True, chains=True, with_shadowing_let=True, nested_rec=True, dup_layers=True, same_layer_src=True, named_with=True, neutral_wrappers=True):
         self.r = random.Random(seed)
         self.n = base
         self.uid = 0
@@ -79,6 +79,7 @@ class Gen:
         self.dup_layers = dup_layers
         self.same_layer_src = same_layer_src
         self.named_with = named_with
+        self.neutral_wrappers = neutral_wrappers
 
     def fresh(self):
         self.n += 1
@@ -182,6 +183,10 @@ class Gen:
                 wrappers.append(self.copy_layer(r.choice(lets)))
             else:
                 wrappers.append(self.let_layer())
+        if self.neutral_wrappers and wrappers and r.random() < 0.3:
+            # constructs that bind none of the pool names, between the layers: `x:`, `assert true;`, parentheses
+            for _ in range(r.randint(1, 2)):
+                wrappers.insert(r.randrange(len(wrappers) + 1), Frame(r.choice(["lambda", "assert", "paren"]), []))
         if not self.with_shadowing_let:
             # keep every with frame outside all let layers... and unbound in lets: drop with frames whose names are let-bound
             let_names = {b.name for w in wrappers if w.kind == "let" for b in w.bindings}
@@ -250,6 +255,12 @@ def render(d: ScopeDoc) -> str:
             out.append("let")
             _print_bindings(w.bindings, 2, out)
             out.append("in")
+        elif w.kind == "lambda":
+            out.append("x0:")
+        elif w.kind == "assert":
+            out.append("assert true;")
+        elif w.kind == "paren":
+            out.append("(")
         elif w.env_name:
             out.append(f"with {w.env_name};")
         else:
@@ -258,7 +269,7 @@ def render(d: ScopeDoc) -> str:
             out.append("};")
     out.append(("rec " if d.target.rec else "") + "{")
     _print_bindings(d.target.bindings, 2, out)
-    out.append("}")
+    out.append("}" + ")" * sum(1 for w in d.wrappers if w.kind == "paren"))
     return "\n".join(out) + "\n"
 
 
